@@ -1793,6 +1793,17 @@ namespace gch
         return p;
       }
 
+      // Pointers to other object types (i.e. contiguous source ranges whose elements are
+      // converted, such as `unsigned *` for a `small_vector<int>`).
+      template <typename U>
+      static constexpr
+      U *
+      to_address (U *p) noexcept
+      {
+        static_assert (! std::is_function<U>::value, "U is a function pointer.");
+        return p;
+      }
+
       template <typename Pointer,
         typename std::enable_if<has_ptr_traits_to_address<Pointer>::value>::type * = nullptr>
       static constexpr
